@@ -114,7 +114,7 @@ def gen_cases(ctx):
             pool = ALLM if rng.random() < 0.5 else PLAIN
             extra = [rng.choice(ALLM)] if k != "box" and rng.random() < 0.3 else []
             objs.append({**g, "ord": rng.choice((-3, 0, 0, 1, 1, 2)), "mat": rng.choice(pool), "extra": extra})
-        yield scene("rand", objs, device=["iso2", rng.choice(ALLM)] if rng.random() < 0.15 else None)
+        yield scene("rand", objs, device=["iso2", rng.choice([m for m in ALLM if m != "iso2"])] if rng.random() < 0.15 else None)
 
 
 def _material(name):
